@@ -66,7 +66,7 @@ def sl_specs(draw, tier):
                                               {"born_effective_charge": False, "dielectric_constant": False}, {"displacements": False}])),
             "mag": draw(st.sampled_from([1.0, 1.0, 1e-9, 1e4, 1e7])), "load_compact": draw(st.booleans()),
             "prior_light_save": draw(st.booleans()), "set_masses": draw(st.sampled_from([False, False, True])),
-            "stray_born": draw(st.booleans())}
+            "stray_born": draw(st.booleans()), "fc_file": draw(st.booleans())}
 
 
 def build_phonopy(spec):
@@ -195,7 +195,15 @@ def run_save_load(spec):
         s = settings or {}
         errs = []
         for nm in ("unitcell", "supercell", "primitive"):
-            e = cells_equal(getattr(ph2, nm), getattr(ph, nm), nm, amp=float(np.abs(ph.supercell_matrix).max()))
+            # error propagation of the printed half-ulp through the integer (supercell) and fractional (primitive) re-tiling: every
+            # entry of a derived lattice is a combination sum_j M_ij L_j of printed numbers, so the bound is the largest absolute
+            # row/column sum of M (for the primitive cell: of S^T and of the primitive matrix relative to the supercell, multiplied)
+            Sm = np.array(ph.supercell_matrix, dtype=float)
+            amp_s = float(max(np.abs(Sm).sum(axis=0).max(), np.abs(Sm).sum(axis=1).max()))
+            Pm = np.eye(3) if ph.primitive_matrix is None else np.array(ph.primitive_matrix, dtype=float)
+            Mp = np.linalg.inv(Sm) @ Pm
+            amp_p = amp_s * float(max(np.abs(Mp).sum(axis=0).max(), np.abs(Mp).sum(axis=1).max(), 1.0))
+            e = cells_equal(getattr(ph2, nm), getattr(ph, nm), nm, amp={"unitcell": 1.0, "supercell": amp_s, "primitive": amp_p}[nm] / 4.0)
             if e:
                 errs.append(e)
         if not np.array_equal(ph2.supercell_matrix, ph.supercell_matrix):
@@ -271,6 +279,31 @@ def run_save_load(spec):
                     errs.append("NAC factor %r reloaded as %r" % (ph.nac_params["factor"], ph2.nac_params["factor"]))
                 if ph2.nac_params.get("method", "gonze") != ph.nac_params.get("method", "gonze"):
                     errs.append("NAC method %r reloaded as %r" % (ph.nac_params.get("method"), ph2.nac_params.get("method")))
+        # force constants kept in their own hdf5 file (as 'phonopy --writefc --hdf5' leaves them, with the calculator's unit recorded) and
+        # named on loading: the values are those of the calculator recorded in the yaml file, not rescaled
+        if not errs and ph.force_constants is not None and spec.get("fc_file"):
+            from phonopy.file_IO import write_force_constants_to_hdf5
+            from phonopy.interface.calculator import get_default_physical_units
+
+            unit = get_default_physical_units(spec["calc"])["force_constants_unit"]
+            comp_in = ph.force_constants.shape[0] != ph.force_constants.shape[1]
+            write_force_constants_to_hdf5(ph.force_constants, filename="fc_own.hdf5", p2s_map=ph.primitive.p2s_map if comp_in else None, physical_unit=unit)
+            # a yaml file WITHOUT force constants, so that the named file is their only source (when both carry them the code takes the
+            # yaml's, whatever the docstring's priority list says - observed, outside the listed properties, not asserted here)
+            fn_nofc = ph.save("p_nofc.yaml", settings={"force_constants": False})
+            os.chdir("empty")
+            try:
+                ph3 = phonopy.load(os.path.join("..", fn_nofc), force_constants_filename=os.path.join("..", "fc_own.hdf5"), produce_fc=False, symmetrize_fc=False,
+                                   is_compact_fc=comp_in, log_level=0)
+            except Exception as e:
+                return Out(ok=False, msg="load(yaml, force_constants_filename=<hdf5 with unit %r>) raised %r (calculator %s)" % (unit, e, spec["calc"]))
+            finally:
+                os.chdir("..")
+            got3 = ph3.force_constants
+            if got3 is None or got3.shape != ph.force_constants.shape or \
+                    np.abs(got3 - ph.force_constants).max() > 1e-12 * max(np.abs(ph.force_constants).max(), 1e-300):
+                errs.append("force constants read from their own hdf5 file (unit %r, calculator %s) differ from those written by %.3e: ratio of maxima %.6g"
+                            % (unit, spec["calc"], float(np.abs(got3 - ph.force_constants).max()) if got3 is not None and got3.shape == ph.force_constants.shape else -1.0, float(np.abs(got3).max() / max(np.abs(ph.force_constants).max(), 1e-300)) if got3 is not None else float("nan")))
         # phonons (same production step on both sides) when everything needed is there
         if not errs and ph.force_constants is not None and ph2.force_constants is not None and spec["mag"] == 1.0 and \
                 (ph.nac_params is None) == (ph2.nac_params is None):
@@ -284,7 +317,7 @@ def run_save_load(spec):
     nsec = (spec["dataset"] != "none") + (spec["fc"] != "none") + (spec["nac"] != "none")
     return Out(ok=True, nontrivial=nsec >= 2, classes=["smat:" + ("diag" if spec.get("smat") is None or not np.any(np.array(spec["smat"]) - np.diag(np.diag(spec["smat"]))) else
                                                                  ("nonsym" if np.any(np.array(spec["smat"]) != np.array(spec["smat"]).T) else "sym_nondiag")),
-                                                       "masses_set_later" if spec.get("set_masses") else "masses_as_built", "stray_BORN_in_cwd" if stray else "clean_cwd", "ds:" + spec["dataset"], "fc:" + spec["fc"], "nac:" + spec["nac"], "calc:%s" % spec["calc"],
+                                                       "masses_set_later" if spec.get("set_masses") else "masses_as_built", "stray_BORN_in_cwd" if stray else "clean_cwd", "fc_also_from_own_hdf5" if (spec.get("fc_file") and ph.force_constants is not None) else "fc_from_yaml_only", "ds:" + spec["dataset"], "fc:" + spec["fc"], "nac:" + spec["nac"], "calc:%s" % spec["calc"],
                                                        "mag:%g" % spec["mag"], "xz" if spec["compression"] else "plain", "labels" if spec["labels"] else "plain_symbols"])
 
 
